@@ -268,6 +268,10 @@ def zerortt_script(r, idx, fate_vec=None, family=None):
         cfg["max_datagrams"] = r.choice([1, 2])
     mode = r.choice(["auto", "late", "points"])
     heavy = r.random() < 0.12
+    if heavy and r.random() < 0.7:
+        # a send buffer the early datagrams fill (or overflow): whatever a rejection discards, it must
+        # also give the room back - the calls after the handshake refuse to evict (drop false)
+        cfg["client"]["dgram_send_buf"] = r.choice([8000, 16000, 40000])
 
     steps = []
     if mode == "auto":
@@ -330,8 +334,8 @@ def zerortt_script(r, idx, fate_vec=None, family=None):
         live = list(e_streams) + [(cid(0, nb + i), 0) for i in range(4)] + [(cid(1, nu + i), 1) for i in range(4)]
         live = r.sample(live, min(len(live), 5))
     steps += post_writes(r, nodes, live, sizes, key, None, 0.4)
-    for i in range(r.choice([0, 0, 1, 3])):
-        steps += both(nodes, {"op": "send_dgram", "len": r.choice([4, 100, 250, 800]), "did": 100 + i})
+    for i in range(r.choice([0, 0, 1, 3]) if not heavy else 3):
+        steps += both(nodes, {"op": "send_dgram", "len": r.choice([4, 100, 250, 800]), "did": 100 + i, "drop": not heavy})
     steps.append({"do": "run", "us": 3000000})
     steps.append({"do": "drain", "n": 0})
     steps.append({"do": "run", "us": 1500000})
